@@ -1,17 +1,17 @@
 
+(** val negb : bool -> bool **)
+
+let negb = function
+| true -> false
+| false -> true
+
 type nat =
 | O
 | S of nat
 
-(** val fst : ('a1 * 'a2) -> 'a1 **)
-
-let fst = function
-| (x, _) -> x
-
-(** val snd : ('a1 * 'a2) -> 'a2 **)
-
-let snd = function
-| (_, y) -> y
+type ('a, 'b) sum =
+| Inl of 'a
+| Inr of 'b
 
 (** val length : 'a1 list -> nat **)
 
@@ -56,30 +56,40 @@ let rec sub n0 m =
             | O -> n0
             | S l -> sub k l)
 
+module Nat =
+ struct
+  (** val eqb : nat -> nat -> bool **)
+
+  let rec eqb n0 m =
+    match n0 with
+    | O -> (match m with
+            | O -> true
+            | S _ -> false)
+    | S n' -> (match m with
+               | O -> false
+               | S m' -> eqb n' m')
+
+  (** val leb : nat -> nat -> bool **)
+
+  let rec leb n0 m =
+    match n0 with
+    | O -> true
+    | S n' -> (match m with
+               | O -> false
+               | S m' -> leb n' m')
+ end
+
 (** val rev : 'a1 list -> 'a1 list **)
 
 let rec rev = function
 | [] -> []
 | x :: l' -> app (rev l') (x :: [])
 
-(** val map : ('a1 -> 'a2) -> 'a1 list -> 'a2 list **)
+(** val existsb : ('a1 -> bool) -> 'a1 list -> bool **)
 
-let rec map f = function
-| [] -> []
-| a :: t -> (f a) :: (map f t)
-
-(** val flat_map : ('a1 -> 'a2 list) -> 'a1 list -> 'a2 list **)
-
-let rec flat_map f = function
-| [] -> []
-| x :: t -> app (f x) (flat_map f t)
-
-(** val fold_left : ('a1 -> 'a2 -> 'a1) -> 'a2 list -> 'a1 -> 'a1 **)
-
-let rec fold_left f l a0 =
-  match l with
-  | [] -> a0
-  | b :: t -> fold_left f t (f a0 b)
+let rec existsb f = function
+| [] -> false
+| a :: l0 -> (||) (f a) (existsb f l0)
 
 (** val firstn : nat -> 'a1 list -> 'a1 list **)
 
@@ -98,18 +108,6 @@ let rec skipn n0 l =
   | S n1 -> (match l with
              | [] -> []
              | _ :: l0 -> skipn n1 l0)
-
-(** val seq : nat -> nat -> nat list **)
-
-let rec seq start = function
-| O -> []
-| S len0 -> start :: (seq (S start) len0)
-
-(** val repeat : 'a1 -> nat -> 'a1 list **)
-
-let rec repeat x = function
-| O -> []
-| S k -> x :: (repeat x k)
 
 type positive =
 | XI of positive
@@ -314,18 +312,6 @@ module Coq_Pos =
 
 module N =
  struct
-  (** val succ_double : n -> n **)
-
-  let succ_double = function
-  | N0 -> Npos XH
-  | Npos p -> Npos (XI p)
-
-  (** val double : n -> n **)
-
-  let double = function
-  | N0 -> N0
-  | Npos p -> Npos (XO p)
-
   (** val add : n -> n -> n **)
 
   let add n0 m =
@@ -379,50 +365,19 @@ module N =
                  | N0 -> false
                  | Npos q -> Coq_Pos.eqb p q)
 
-  (** val leb : n -> n -> bool **)
+  (** val ltb : n -> n -> bool **)
 
-  let leb x y =
+  let ltb x y =
     match compare x y with
-    | Gt -> false
-    | _ -> true
+    | Lt -> true
+    | _ -> false
 
-  (** val pos_div_eucl : positive -> n -> n * n **)
+  (** val min : n -> n -> n **)
 
-  let rec pos_div_eucl a b =
-    match a with
-    | XI a' ->
-      let (q, r) = pos_div_eucl a' b in
-      let r' = succ_double r in
-      if leb b r' then ((succ_double q), (sub r' b)) else ((double q), r')
-    | XO a' ->
-      let (q, r) = pos_div_eucl a' b in
-      let r' = double r in
-      if leb b r' then ((succ_double q), (sub r' b)) else ((double q), r')
-    | XH ->
-      (match b with
-       | N0 -> (N0, (Npos XH))
-       | Npos p -> (match p with
-                    | XH -> ((Npos XH), N0)
-                    | _ -> (N0, (Npos XH))))
-
-  (** val div_eucl : n -> n -> n * n **)
-
-  let div_eucl a b =
-    match a with
-    | N0 -> (N0, N0)
-    | Npos na -> (match b with
-                  | N0 -> (N0, a)
-                  | Npos _ -> pos_div_eucl na b)
-
-  (** val div : n -> n -> n **)
-
-  let div a b =
-    fst (div_eucl a b)
-
-  (** val modulo : n -> n -> n **)
-
-  let modulo a b =
-    snd (div_eucl a b)
+  let min n0 n' =
+    match compare n0 n' with
+    | Gt -> n'
+    | _ -> n0
 
   (** val to_nat : n -> nat **)
 
@@ -554,6 +509,20 @@ module Z =
     | Lt -> true
     | _ -> false
 
+  (** val geb : z -> z -> bool **)
+
+  let geb x y =
+    match compare x y with
+    | Lt -> false
+    | _ -> true
+
+  (** val gtb : z -> z -> bool **)
+
+  let gtb x y =
+    match compare x y with
+    | Gt -> true
+    | _ -> false
+
   (** val eqb : z -> z -> bool **)
 
   let eqb x y =
@@ -640,19 +609,661 @@ module Z =
     let (_, r) = div_eucl a b in r
  end
 
-(** val split_at : z -> z list -> z list -> z list list * z list **)
+(** val warc_kRead : n **)
 
-let rec split_at d bs cur =
-  match bs with
-  | [] -> ([], (rev cur))
+let warc_kRead =
+  Npos (XO (XO (XO (XO (XO (XO (XO (XO (XO (XO (XO (XO XH))))))))))))
+
+(** val warc_version : z list **)
+
+let warc_version =
+  (Zpos (XI (XI (XI (XO (XI (XO XH))))))) :: ((Zpos (XI (XO (XO (XO (XO (XO
+    XH))))))) :: ((Zpos (XO (XI (XO (XO (XI (XO XH))))))) :: ((Zpos (XI (XI
+    (XO (XO (XO (XO XH))))))) :: ((Zpos (XI (XI (XI (XI (XO
+    XH)))))) :: ((Zpos (XI (XO (XO (XO (XI XH)))))) :: ((Zpos (XO (XI (XI (XI
+    (XO XH)))))) :: ((Zpos (XO (XO (XO (XO (XI XH)))))) :: [])))))))
+
+(** val warc_cl_name : z list **)
+
+let warc_cl_name =
+  (Zpos (XI (XI (XO (XO (XO (XO XH))))))) :: ((Zpos (XI (XI (XI (XI (XO (XI
+    XH))))))) :: ((Zpos (XO (XI (XI (XI (XO (XI XH))))))) :: ((Zpos (XO (XO
+    (XI (XO (XI (XI XH))))))) :: ((Zpos (XI (XO (XI (XO (XO (XI
+    XH))))))) :: ((Zpos (XO (XI (XI (XI (XO (XI XH))))))) :: ((Zpos (XO (XO
+    (XI (XO (XI (XI XH))))))) :: ((Zpos (XI (XO (XI (XI (XO
+    XH)))))) :: ((Zpos (XO (XO (XI (XI (XO (XO XH))))))) :: ((Zpos (XI (XO
+    (XI (XO (XO (XI XH))))))) :: ((Zpos (XO (XI (XI (XI (XO (XI
+    XH))))))) :: ((Zpos (XI (XI (XI (XO (XO (XI XH))))))) :: ((Zpos (XO (XO
+    (XI (XO (XI (XI XH))))))) :: ((Zpos (XO (XO (XO (XI (XO (XI
+    XH))))))) :: ((Zpos (XO (XI (XO (XI (XI XH)))))) :: []))))))))))))))
+
+(** val warc_trailer : z list **)
+
+let warc_trailer =
+  (Zpos (XI (XO (XI XH)))) :: ((Zpos (XO (XI (XO XH)))) :: ((Zpos (XI (XO (XI
+    XH)))) :: ((Zpos (XO (XI (XO XH)))) :: [])))
+
+(** val warc_trailer_len : n **)
+
+let warc_trailer_len =
+  Npos (XO (XO XH))
+
+(** val warc_reject_negative : bool **)
+
+let warc_reject_negative =
+  true
+
+(** val warc_reject_nodigit : bool **)
+
+let warc_reject_nodigit =
+  true
+
+(** val warc_overhang_le : bool **)
+
+let warc_overhang_le =
+  false
+
+(** val kMagicSize : n **)
+
+let kMagicSize =
+  Npos (XO (XI XH))
+
+(** val kInputBuffer : n **)
+
+let kInputBuffer =
+  Npos (XO (XO (XO (XO (XO (XO (XO (XO (XO (XO (XO (XO (XO (XO
+    XH))))))))))))))
+
+(** val kSizeMax : n **)
+
+let kSizeMax =
+  Npos (XI (XI (XI (XI (XI (XI (XI (XI (XI (XI (XI (XI (XI (XI (XI (XI (XI
+    (XI (XI (XI (XI (XI (XI (XI (XI (XI (XI (XI (XI (XI (XI
+    XH)))))))))))))))))))))))))))))))
+
+(** val bz_read_stall_check : bool **)
+
+let bz_read_stall_check =
+  true
+
+(** val gz_magic : z list **)
+
+let gz_magic =
+  (Zpos (XI (XI (XI (XI XH))))) :: ((Zpos (XI (XI (XO (XI (XO (XO (XO
+    XH)))))))) :: [])
+
+(** val bz_magic : z list **)
+
+let bz_magic =
+  (Zpos (XO (XI (XO (XO (XO (XO XH))))))) :: ((Zpos (XO (XI (XO (XI (XI (XO
+    XH))))))) :: ((Zpos (XO (XO (XO (XI (XO (XI XH))))))) :: []))
+
+(** val xz_magic : z list **)
+
+let xz_magic =
+  (Zpos (XI (XO (XI (XI (XI (XI (XI XH)))))))) :: ((Zpos (XI (XI (XI (XO (XI
+    XH)))))) :: ((Zpos (XO (XI (XO (XI (XI (XI XH))))))) :: ((Zpos (XO (XO
+    (XO (XI (XI (XO XH))))))) :: ((Zpos (XO (XI (XO (XI (XI (XO
+    XH))))))) :: (Z0 :: [])))))
+
+(** val bZ_STREAM_END : z **)
+
+let bZ_STREAM_END =
+  Zpos (XO (XO XH))
+
+(** val lZMA_FINISH : z **)
+
+let lZMA_FINISH =
+  Zpos (XI XH)
+
+(** val lZMA_RUN : z **)
+
+let lZMA_RUN =
+  Z0
+
+(** val lZMA_STREAM_END : z **)
+
+let lZMA_STREAM_END =
+  Zpos XH
+
+(** val gz_read_continue : z list **)
+
+let gz_read_continue =
+  Z0 :: []
+
+(** val gz_read_end : z list **)
+
+let gz_read_end =
+  (Zpos XH) :: []
+
+(** val bz_fine : z list **)
+
+let bz_fine =
+  Z0 :: ((Zpos XH) :: [])
+
+(** val xz_fine : z list **)
+
+let xz_fine =
+  Z0 :: []
+
+(** val len : 'a1 list -> n **)
+
+let len l =
+  N.of_nat (length l)
+
+(** val takeN : n -> 'a1 list -> 'a1 list **)
+
+let takeN n0 l =
+  firstn (N.to_nat n0) l
+
+(** val dropN : n -> 'a1 list -> 'a1 list **)
+
+let dropN n0 l =
+  skipn (N.to_nat n0) l
+
+(** val is_nil : 'a1 list -> bool **)
+
+let is_nil = function
+| [] -> true
+| _ :: _ -> false
+
+type kind =
+| KGz
+| KBz
+| KXz
+
+(** val mem : z -> z list -> bool **)
+
+let mem x l =
+  existsb (Z.eqb x) l
+
+(** val starts_with : z list -> z list -> bool **)
+
+let rec starts_with p l =
+  match p with
+  | [] -> true
+  | a :: p' ->
+    (match l with
+     | [] -> false
+     | b :: l' -> (&&) (Z.eqb a b) (starts_with p' l'))
+
+(** val detect_magic : z list -> kind option **)
+
+let detect_magic h =
+  if starts_with gz_magic h
+  then Some KGz
+  else if starts_with bz_magic h
+       then Some KBz
+       else if starts_with xz_magic h then Some KXz else None
+
+type frags = z list list
+
+(** val partial_read : frags -> n -> z list * frags **)
+
+let rec partial_read f n0 =
+  match f with
+  | [] -> ([], [])
+  | fr :: r ->
+    (match fr with
+     | [] -> partial_read r n0
+     | _ :: _ ->
+       if N.ltb n0 (len fr)
+       then ((takeN n0 fr), ((dropN n0 fr) :: r))
+       else (fr, r))
+
+(** val read_or_eof_loop : nat -> frags -> n -> z list * frags **)
+
+let rec read_or_eof_loop fuel f n0 =
+  match fuel with
+  | O -> ([], f)
+  | S k ->
+    if N.eqb n0 N0
+    then ([], f)
+    else let (got, f') = partial_read f n0 in
+         (match got with
+          | [] -> ([], f')
+          | _ :: _ ->
+            let (more, f'') = read_or_eof_loop k f' (N.sub n0 (len got)) in
+            ((app got more), f''))
+
+(** val read_or_eof : frags -> n -> z list * frags **)
+
+let read_or_eof f n0 =
+  read_or_eof_loop (N.to_nat n0) f n0
+
+type 's cres = { c_st : 's; c_used : n; c_out : z list; c_rc : z }
+
+type pstep =
+| PContinue
+| PEnd
+| PThrow
+
+(** val process_read : kind -> z -> bool -> bool -> pstep **)
+
+let process_read k rc no_input no_output =
+  match k with
+  | KGz ->
+    if mem rc gz_read_continue
+    then PContinue
+    else if mem rc gz_read_end then PEnd else PThrow
+  | KBz ->
+    if Z.eqb rc bZ_STREAM_END
+    then PEnd
+    else if mem rc bz_fine
+         then if (&&) ((&&) bz_read_stall_check no_input) no_output
+              then PThrow
+              else PContinue
+         else PThrow
+  | KXz ->
+    if Z.eqb rc lZMA_STREAM_END
+    then PEnd
+    else if mem rc xz_fine then PContinue else PThrow
+
+(** val read_action : kind -> bool -> z **)
+
+let read_action k fin =
+  match k with
+  | KXz -> if fin then lZMA_FINISH else lZMA_RUN
+  | _ -> Z0
+
+type rerr =
+| EGz
+| EBz
+| EXz
+| ECompressed
+| EHang
+
+(** val err_of : kind -> rerr **)
+
+let err_of = function
+| KGz -> EGz
+| KBz -> EBz
+| KXz -> EXz
+
+type 'dstate reader =
+| RComplete
+| RPlain
+| RHeader of z list
+| RStream of kind * 'dstate * z list * bool
+
+type ('world, 'dstate) rstate = { r_file : frags; r_world : 'world;
+                                  r_rd : 'dstate reader }
+
+type ('world, 'dstate) rres =
+| ROk of z list * ('world, 'dstate) rstate
+| RErr of rerr
+
+(** val read_factory :
+    ('a1 -> kind -> 'a2 * 'a1) -> frags -> 'a1 -> z list -> bool -> (('a2
+    reader * frags) * 'a1) option **)
+
+let read_factory dnew f w already require =
+  if N.ltb (len already) kMagicSize
+  then let (got, f') = read_or_eof f (N.sub kMagicSize (len already)) in
+       let header = app already got in
+       (match header with
+        | [] -> Some ((RComplete, f'), w)
+        | _ :: _ ->
+          (match detect_magic header with
+           | Some k ->
+             let (st, w') = dnew w k in
+             Some (((RStream (k, st, header, false)), f'), w')
+           | None ->
+             if require then None else Some (((RHeader header), f'), w)))
+  else (match already with
+        | [] -> Some ((RComplete, f), w)
+        | _ :: _ ->
+          (match detect_magic already with
+           | Some k ->
+             let (st, w') = dnew w k in
+             Some (((RStream (k, st, already, false)), f), w')
+           | None ->
+             if require then None else Some (((RHeader already), f), w)))
+
+(** val rd :
+    ('a1 -> kind -> 'a2 * 'a1) -> (kind -> 'a2 -> z -> z list -> n -> 'a2
+    cres) -> nat -> ('a1, 'a2) rstate -> n -> ('a1, 'a2) rres **)
+
+let rec rd dnew dcall fuel s amount =
+  match s.r_rd with
+  | RComplete -> ROk ([], s)
+  | RPlain ->
+    let (got, f') = partial_read s.r_file amount in
+    ROk (got, { r_file = f'; r_world = s.r_world; r_rd = RPlain })
+  | RHeader buf ->
+    let sending = N.min amount (len buf) in
+    let rest = dropN sending buf in
+    ROk ((takeN sending buf), { r_file = s.r_file; r_world = s.r_world;
+    r_rd = (match rest with
+            | [] -> RPlain
+            | _ :: _ -> RHeader rest) })
+  | RStream (k, st, inbuf, fin) ->
+    if N.eqb amount N0
+    then ROk ([], s)
+    else (match fuel with
+          | O -> RErr EHang
+          | S fuel' ->
+            (match inbuf with
+             | [] ->
+               let (got, f') = read_or_eof s.r_file kInputBuffer in
+               let p = (got, f') in
+               let fin1 =
+                 (||) fin (match k with
+                           | KXz -> is_nil got
+                           | _ -> false)
+               in
+               let (inbuf1, f1) = p in
+               let cap =
+                 match k with
+                 | KXz -> amount
+                 | _ -> N.min kSizeMax amount
+               in
+               let r = dcall k st (read_action k fin1) inbuf1 cap in
+               let inbuf2 = dropN r.c_used inbuf1 in
+               let out = r.c_out in
+               (match process_read k r.c_rc (is_nil inbuf1) (is_nil out) with
+                | PContinue ->
+                  let s1 = { r_file = f1; r_world = s.r_world; r_rd =
+                    (RStream (k, r.c_st, inbuf2, fin1)) }
+                  in
+                  (match out with
+                   | [] -> rd dnew dcall fuel' s1 amount
+                   | _ :: _ -> ROk (out, s1))
+                | PEnd ->
+                  (match read_factory dnew f1 s.r_world inbuf2 true with
+                   | Some p0 ->
+                     let (p1, w2) = p0 in
+                     let (rdr, f2) = p1 in
+                     let s2 = { r_file = f2; r_world = w2; r_rd = rdr } in
+                     (match out with
+                      | [] -> rd dnew dcall fuel' s2 amount
+                      | _ :: _ -> ROk (out, s2))
+                   | None -> RErr ECompressed)
+                | PThrow -> RErr (err_of k))
+             | _ :: _ ->
+               let p = (inbuf, s.r_file) in
+               let (inbuf1, f1) = p in
+               let cap =
+                 match k with
+                 | KXz -> amount
+                 | _ -> N.min kSizeMax amount
+               in
+               let r = dcall k st (read_action k fin) inbuf1 cap in
+               let inbuf2 = dropN r.c_used inbuf1 in
+               let out = r.c_out in
+               (match process_read k r.c_rc (is_nil inbuf1) (is_nil out) with
+                | PContinue ->
+                  let s1 = { r_file = f1; r_world = s.r_world; r_rd =
+                    (RStream (k, r.c_st, inbuf2, fin)) }
+                  in
+                  (match out with
+                   | [] -> rd dnew dcall fuel' s1 amount
+                   | _ :: _ -> ROk (out, s1))
+                | PEnd ->
+                  (match read_factory dnew f1 s.r_world inbuf2 true with
+                   | Some p0 ->
+                     let (p1, w2) = p0 in
+                     let (rdr, f2) = p1 in
+                     let s2 = { r_file = f2; r_world = w2; r_rd = rdr } in
+                     (match out with
+                      | [] -> rd dnew dcall fuel' s2 amount
+                      | _ :: _ -> ROk (out, s2))
+                   | None -> RErr ECompressed)
+                | PThrow -> RErr (err_of k))))
+
+(** val rc_open :
+    ('a1 -> kind -> 'a2 * 'a1) -> frags -> 'a1 -> ('a1, 'a2) rstate option **)
+
+let rc_open dnew f w =
+  match read_factory dnew f w [] false with
+  | Some p ->
+    let (p0, w1) = p in
+    let (rdr, f1) = p0 in Some { r_file = f1; r_world = w1; r_rd = rdr }
+  | None -> None
+
+type werr =
+| WEof
+| WFormat
+| WLength
+| WReader
+| WHang
+
+(** val is_space : z -> bool **)
+
+let is_space b =
+  (||) (Z.eqb b (Zpos (XO (XO (XO (XO (XO XH)))))))
+    ((&&) (Z.leb (Zpos (XI (XO (XO XH)))) b)
+      (Z.leb b (Zpos (XI (XO (XI XH))))))
+
+(** val is_digit : z -> bool **)
+
+let is_digit b =
+  (&&) (Z.leb (Zpos (XO (XO (XO (XO (XI XH)))))) b)
+    (Z.leb b (Zpos (XI (XO (XO (XI (XI XH)))))))
+
+(** val skip_space : z list -> nat -> z list * nat **)
+
+let rec skip_space l n0 =
+  match l with
+  | [] -> ([], n0)
+  | b :: r -> if is_space b then skip_space r (S n0) else (l, n0)
+
+(** val scan_digits : z list -> z -> nat -> z * nat **)
+
+let rec scan_digits l acc cnt =
+  match l with
+  | [] -> (acc, cnt)
   | b :: r ->
-    if Z.eqb b d
-    then let (rs, t) = split_at d r [] in (((rev cur) :: rs), t)
-    else split_at d r (b :: cur)
+    if is_digit b
+    then scan_digits r
+           (Z.add (Z.mul acc (Zpos (XO (XI (XO XH)))))
+             (Z.sub b (Zpos (XO (XO (XO (XO (XI XH)))))))) (S cnt)
+    else (acc, cnt)
 
-(** val strip_cr : z list -> z list **)
+(** val llong_max : z **)
 
-let strip_cr l =
+let llong_max =
+  Zpos (XI (XI (XI (XI (XI (XI (XI (XI (XI (XI (XI (XI (XI (XI (XI (XI (XI
+    (XI (XI (XI (XI (XI (XI (XI (XI (XI (XI (XI (XI (XI (XI (XI (XI (XI (XI
+    (XI (XI (XI (XI (XI (XI (XI (XI (XI (XI (XI (XI (XI (XI (XI (XI (XI (XI
+    (XI (XI (XI (XI (XI (XI (XI (XI (XI
+    XH))))))))))))))))))))))))))))))))))))))))))))))))))))))))))))))
+
+(** val llong_min : z **)
+
+let llong_min =
+  Zneg (XO (XO (XO (XO (XO (XO (XO (XO (XO (XO (XO (XO (XO (XO (XO (XO (XO
+    (XO (XO (XO (XO (XO (XO (XO (XO (XO (XO (XO (XO (XO (XO (XO (XO (XO (XO
+    (XO (XO (XO (XO (XO (XO (XO (XO (XO (XO (XO (XO (XO (XO (XO (XO (XO (XO
+    (XO (XO (XO (XO (XO (XO (XO (XO (XO (XO
+    XH)))))))))))))))))))))))))))))))))))))))))))))))))))))))))))))))
+
+(** val clamp_ll : z -> z **)
+
+let clamp_ll v =
+  if Z.gtb v llong_max
+  then llong_max
+  else if Z.ltb v llong_min then llong_min else v
+
+(** val strtoll : z list -> z * nat **)
+
+let strtoll l =
+  let (l1, n1) = skip_space l O in
+  (match l1 with
+   | [] ->
+     let p = (false, l1) in
+     let (neg, l2) = p in
+     let (v, cnt) = scan_digits l2 Z0 O in
+     (match cnt with
+      | O -> (Z0, O)
+      | S _ -> ((clamp_ll (if neg then Z.opp v else v)), (add n1 cnt)))
+   | z0 :: r ->
+     (match z0 with
+      | Zpos p ->
+        (match p with
+         | XI p0 ->
+           (match p0 with
+            | XI p1 ->
+              (match p1 with
+               | XO p2 ->
+                 (match p2 with
+                  | XI p3 ->
+                    (match p3 with
+                     | XO p4 ->
+                       (match p4 with
+                        | XH ->
+                          let p5 = (false, r) in
+                          let n2 = S n1 in
+                          let (neg, l2) = p5 in
+                          let (v, cnt) = scan_digits l2 Z0 O in
+                          (match cnt with
+                           | O -> (Z0, O)
+                           | S _ ->
+                             ((clamp_ll (if neg then Z.opp v else v)),
+                               (add n2 cnt)))
+                        | _ ->
+                          let p5 = (false, l1) in
+                          let (neg, l2) = p5 in
+                          let (v, cnt) = scan_digits l2 Z0 O in
+                          (match cnt with
+                           | O -> (Z0, O)
+                           | S _ ->
+                             ((clamp_ll (if neg then Z.opp v else v)),
+                               (add n1 cnt))))
+                     | _ ->
+                       let p4 = (false, l1) in
+                       let (neg, l2) = p4 in
+                       let (v, cnt) = scan_digits l2 Z0 O in
+                       (match cnt with
+                        | O -> (Z0, O)
+                        | S _ ->
+                          ((clamp_ll (if neg then Z.opp v else v)),
+                            (add n1 cnt))))
+                  | _ ->
+                    let p3 = (false, l1) in
+                    let (neg, l2) = p3 in
+                    let (v, cnt) = scan_digits l2 Z0 O in
+                    (match cnt with
+                     | O -> (Z0, O)
+                     | S _ ->
+                       ((clamp_ll (if neg then Z.opp v else v)), (add n1 cnt))))
+               | _ ->
+                 let p2 = (false, l1) in
+                 let (neg, l2) = p2 in
+                 let (v, cnt) = scan_digits l2 Z0 O in
+                 (match cnt with
+                  | O -> (Z0, O)
+                  | S _ ->
+                    ((clamp_ll (if neg then Z.opp v else v)), (add n1 cnt))))
+            | XO p1 ->
+              (match p1 with
+               | XI p2 ->
+                 (match p2 with
+                  | XI p3 ->
+                    (match p3 with
+                     | XO p4 ->
+                       (match p4 with
+                        | XH ->
+                          let p5 = (true, r) in
+                          let n2 = S n1 in
+                          let (neg, l2) = p5 in
+                          let (v, cnt) = scan_digits l2 Z0 O in
+                          (match cnt with
+                           | O -> (Z0, O)
+                           | S _ ->
+                             ((clamp_ll (if neg then Z.opp v else v)),
+                               (add n2 cnt)))
+                        | _ ->
+                          let p5 = (false, l1) in
+                          let (neg, l2) = p5 in
+                          let (v, cnt) = scan_digits l2 Z0 O in
+                          (match cnt with
+                           | O -> (Z0, O)
+                           | S _ ->
+                             ((clamp_ll (if neg then Z.opp v else v)),
+                               (add n1 cnt))))
+                     | _ ->
+                       let p4 = (false, l1) in
+                       let (neg, l2) = p4 in
+                       let (v, cnt) = scan_digits l2 Z0 O in
+                       (match cnt with
+                        | O -> (Z0, O)
+                        | S _ ->
+                          ((clamp_ll (if neg then Z.opp v else v)),
+                            (add n1 cnt))))
+                  | _ ->
+                    let p3 = (false, l1) in
+                    let (neg, l2) = p3 in
+                    let (v, cnt) = scan_digits l2 Z0 O in
+                    (match cnt with
+                     | O -> (Z0, O)
+                     | S _ ->
+                       ((clamp_ll (if neg then Z.opp v else v)), (add n1 cnt))))
+               | _ ->
+                 let p2 = (false, l1) in
+                 let (neg, l2) = p2 in
+                 let (v, cnt) = scan_digits l2 Z0 O in
+                 (match cnt with
+                  | O -> (Z0, O)
+                  | S _ ->
+                    ((clamp_ll (if neg then Z.opp v else v)), (add n1 cnt))))
+            | XH ->
+              let p1 = (false, l1) in
+              let (neg, l2) = p1 in
+              let (v, cnt) = scan_digits l2 Z0 O in
+              (match cnt with
+               | O -> (Z0, O)
+               | S _ ->
+                 ((clamp_ll (if neg then Z.opp v else v)), (add n1 cnt))))
+         | _ ->
+           let p0 = (false, l1) in
+           let (neg, l2) = p0 in
+           let (v, cnt) = scan_digits l2 Z0 O in
+           (match cnt with
+            | O -> (Z0, O)
+            | S _ -> ((clamp_ll (if neg then Z.opp v else v)), (add n1 cnt))))
+      | _ ->
+        let p = (false, l1) in
+        let (neg, l2) = p in
+        let (v, cnt) = scan_digits l2 Z0 O in
+        (match cnt with
+         | O -> (Z0, O)
+         | S _ -> ((clamp_ll (if neg then Z.opp v else v)), (add n1 cnt)))))
+
+(** val lower : z -> z **)
+
+let lower b =
+  if (&&) (Z.leb (Zpos (XI (XO (XO (XO (XO (XO XH))))))) b)
+       (Z.leb b (Zpos (XO (XI (XO (XI (XI (XO XH))))))))
+  then Z.add b (Zpos (XO (XO (XO (XO (XO XH))))))
+  else b
+
+(** val ci_prefix : z list -> z list -> bool **)
+
+let rec ci_prefix p l =
+  match p with
+  | [] -> true
+  | a :: p' ->
+    (match l with
+     | [] -> false
+     | b :: l' -> (&&) (Z.eqb (lower a) (lower b)) (ci_prefix p' l'))
+
+(** val find_nl : z list -> nat -> nat option **)
+
+let rec find_nl l i =
+  match l with
+  | [] -> None
+  | b :: r ->
+    if Z.eqb b (Zpos (XO (XI (XO XH)))) then Some i else find_nl r (S i)
+
+(** val find_from : z list -> nat -> nat option **)
+
+let find_from out start =
+  find_nl (skipn start out) start
+
+(** val strip_cr_end : z list -> z list **)
+
+let strip_cr_end l =
   match rev l with
   | [] -> l
   | z0 :: r ->
@@ -671,147 +1282,227 @@ let strip_cr l =
         | _ -> l)
      | _ -> l)
 
-(** val records : z -> bool -> z list -> z list list **)
+(** val list_eqb : z list -> z list -> bool **)
 
-let records d cr bs =
-  let (rs, t) = split_at d bs [] in
-  app (map (if cr then strip_cr else (fun x -> x)) rs)
-    (match t with
-     | [] -> []
-     | _ :: _ -> t :: [])
+let rec list_eqb a b =
+  match a with
+  | [] -> (match b with
+           | [] -> true
+           | _ :: _ -> false)
+  | x :: a' ->
+    (match b with
+     | [] -> false
+     | y :: b' -> (&&) (Z.eqb x y) (list_eqb a' b'))
 
-(** val unrecords : z -> z list list -> z list **)
+(** val size_max : z **)
 
-let unrecords d rs =
-  flat_map (fun r -> app r (d :: [])) rs
+let size_max =
+  Zpos (XO (XO (XO (XO (XO (XO (XO (XO (XO (XO (XO (XO (XO (XO (XO (XO (XO
+    (XO (XO (XO (XO (XO (XO (XO (XO (XO (XO (XO (XO (XO (XO (XO (XO (XO (XO
+    (XO (XO (XO (XO (XO (XO (XO (XO (XO (XO (XO (XO (XO (XO (XO (XO (XO (XO
+    (XO (XO (XO (XO (XO (XO (XO (XO (XO (XO (XO
+    XH))))))))))))))))))))))))))))))))))))))))))))))))))))))))))))))))
 
-(** val shard_seed : n **)
+(** val alloc_limit : z **)
 
-let shard_seed =
-  Npos (XI (XO (XO (XI (XO (XO (XI (XO (XO (XI (XI (XO (XI (XI (XO (XI (XI
-    (XO (XI (XO (XI (XI (XI (XI (XO (XO (XI (XI (XO (XO (XI (XI (XO (XO (XI
-    (XO (XO (XO (XO (XI (XI (XI (XO (XI (XO
-    XH)))))))))))))))))))))))))))))))))))))))))))))
+let alloc_limit =
+  Zpos (XO (XO (XO (XO (XO (XO (XO (XO (XO (XO (XO (XO (XO (XO (XO (XO (XO
+    (XO (XO (XO (XO (XO (XO (XO (XO (XO (XO (XO (XO (XO (XO (XO (XO (XO (XO
+    (XO (XO (XO (XO (XO (XO (XO (XO (XO (XO (XO
+    XH))))))))))))))))))))))))))))))))))))))))))))))
 
-(** val kBlockSize : n **)
+(** val overhang_test : z -> z -> bool **)
 
-let kBlockSize =
-  Npos (XO (XO (XO (XO (XO (XO (XO (XO (XO (XO (XO (XO XH))))))))))))
+let overhang_test total size =
+  if warc_overhang_le then Z.leb total size else Z.ltb total size
 
-(** val shard_strip_cr : bool **)
+type 'rstate more_res =
+| MoreOk of z list * 'rstate
+| MoreEnd of 'rstate
+| MoreErr of werr
 
-let shard_strip_cr =
-  true
+(** val read_more :
+    ('a1 -> n -> (z list * 'a1) option) -> 'a1 -> z list -> 'a1 more_res **)
 
-(** val index : (z list -> n) -> n -> z list -> n **)
+let read_more rread rs out =
+  match rread rs warc_kRead with
+  | Some p ->
+    let (got, rs') = p in
+    (match got with
+     | [] -> (match out with
+              | [] -> MoreEnd rs'
+              | _ :: _ -> MoreErr WEof)
+     | _ :: _ -> MoreOk ((app out got), rs'))
+  | None -> MoreErr WReader
 
-let index keyhash n0 line =
-  N.modulo (keyhash line) n0
+type 'rstate line_res =
+| LineOk of z list * nat * z list * 'rstate
+| LineEnd of 'rstate
+| LineErr of werr
 
-(** val update : 'a1 list -> nat -> ('a1 -> 'a1) -> 'a1 list **)
+(** val hline :
+    ('a1 -> n -> (z list * 'a1) option) -> nat -> 'a1 -> z list -> nat -> nat
+    -> 'a1 line_res **)
 
-let rec update l i f =
-  match l with
-  | [] -> []
-  | x :: r -> (match i with
-               | O -> (f x) :: r
-               | S j -> x :: (update r j f))
+let rec hline rread fuel rs out consumed nstart =
+  match find_from out nstart with
+  | Some nl ->
+    LineOk ((strip_cr_end (firstn (sub nl consumed) (skipn consumed out))),
+      (S nl), out, rs)
+  | None ->
+    (match fuel with
+     | O -> LineErr WHang
+     | S f ->
+       (match read_more rread rs out with
+        | MoreOk (out', rs') -> hline rread f rs' out' consumed (length out)
+        | MoreEnd rs' -> LineEnd rs'
+        | MoreErr e -> LineErr e))
 
-(** val shard_step :
-    (z list -> n) -> n -> z list list list -> z list -> z list list list **)
+type 'rstate hdr_res =
+| HdrOk of 'rstate * z list * nat * z
+| HdrErr of werr
 
-let shard_step keyhash n0 outs line =
-  update outs (N.to_nat (index keyhash n0 line)) (fun o -> app o (line :: []))
+(** val is_content_length : z list -> bool **)
 
-(** val shard : (z list -> n) -> n -> z list list -> z list list list **)
+let is_content_length line =
+  (&&) (Nat.leb (length warc_cl_name) (length line))
+    (ci_prefix warc_cl_name line)
 
-let shard keyhash n0 ls =
-  fold_left (shard_step keyhash n0) ls (repeat [] (N.to_nat n0))
+(** val header_loop :
+    ('a1 -> n -> (z list * 'a1) option) -> nat -> nat -> 'a1 -> z list -> nat
+    -> z list -> bool -> z -> 'a1 hdr_res **)
 
-(** val shard_bytes : z list list -> z list **)
+let rec header_loop rread fuel lfuel rs out consumed line seen length_ =
+  match line with
+  | [] -> if seen then HdrOk (rs, out, consumed, length_) else HdrErr WFormat
+  | _ :: _ ->
+    (match fuel with
+     | O -> HdrErr WHang
+     | S f ->
+       (match hline rread lfuel rs out consumed consumed with
+        | LineOk (line', consumed', out', rs') ->
+          if is_content_length line'
+          then if seen
+               then HdrErr WFormat
+               else let namelen = length warc_cl_name in
+                    let (v, used) =
+                      strtoll (skipn (add consumed namelen) out')
+                    in
+                    if (||) ((&&) warc_reject_nodigit (Nat.eqb used O))
+                         (negb (Nat.eqb used (sub (length line') namelen)))
+                    then HdrErr WFormat
+                    else if (&&) warc_reject_negative (Z.ltb v Z0)
+                         then HdrErr WFormat
+                         else header_loop rread f lfuel rs' out' consumed'
+                                line' true v
+          else header_loop rread f lfuel rs' out' consumed' line' seen length_
+        | LineEnd _ -> HdrErr WEof
+        | LineErr e -> HdrErr e))
 
-let shard_bytes lines =
-  unrecords (Zpos (XO (XI (XO XH)))) lines
+type 'rstate rec_res =
+| RecOk of z list * 'rstate * z list
+| RecEnd
+| RecErr of werr
 
-(** val shard_tool : (z list -> n) -> n -> z list -> z list list **)
+(** val read_exact :
+    ('a1 -> n -> (z list * 'a1) option) -> nat -> 'a1 -> z list -> z -> (z
+    list * 'a1, werr) sum **)
 
-let shard_tool keyhash n0 input =
-  map shard_bytes
-    (shard keyhash n0 (records (Zpos (XO (XI (XO XH)))) shard_strip_cr input))
-
-(** val chunks : nat -> nat -> z list -> z list list **)
-
-let rec chunks fuel size bs =
-  match fuel with
-  | O -> []
-  | S f ->
-    (match bs with
-     | [] -> []
-     | _ :: _ -> (firstn size bs) :: (chunks f size (skipn size bs)))
-
-(** val blocks : z list -> z list list **)
-
-let blocks bs =
-  chunks (S (length bs)) (N.to_nat kBlockSize) bs
-
-(** val digits_loop : nat -> n -> n -> n **)
-
-let rec digits_loop fuel compare0 digits =
-  if N.eqb compare0 N0
-  then digits
+let rec read_exact rread fuel rs out total =
+  if Z.eqb (Z.of_nat (length out)) total
+  then Inl (out, rs)
   else (match fuel with
-        | O -> digits
+        | O -> Inr WHang
         | S f ->
-          digits_loop f (N.div compare0 (Npos (XO (XI (XO XH)))))
-            (N.add digits (Npos XH)))
+          (match rread rs (Z.to_N (Z.sub total (Z.of_nat (length out)))) with
+           | Some p ->
+             let (got, rs') = p in
+             (match got with
+              | [] -> Inr WEof
+              | _ :: _ -> read_exact rread f rs' (app out got) total)
+           | None -> Inr WReader))
 
-(** val u32N : z -> n **)
+(** val warc_read :
+    ('a1 -> n -> (z list * 'a1) option) -> nat -> 'a1 -> z list -> 'a1 rec_res **)
 
-let u32N x =
-  Z.to_N
-    (Z.modulo x (Zpos (XO (XO (XO (XO (XO (XO (XO (XO (XO (XO (XO (XO (XO (XO
-      (XO (XO (XO (XO (XO (XO (XO (XO (XO (XO (XO (XO (XO (XO (XO (XO (XO (XO
-      XH))))))))))))))))))))))))))))))))))
+let warc_read rread fuel rs overhang =
+  match hline rread fuel rs overhang O O with
+  | LineOk (line, consumed, out, rs1) ->
+    if negb (list_eqb line warc_version)
+    then RecErr WFormat
+    else (match header_loop rread fuel fuel rs1 out consumed line false Z0 with
+          | HdrOk (rs2, out2, consumed2, len0) ->
+            let total =
+              Z.modulo
+                (Z.add (Z.add (Z.of_nat consumed2) (Z.modulo len0 size_max))
+                  (Z.of_N warc_trailer_len)) size_max
+            in
+            if overhang_test total (Z.of_nat (length out2))
+            then let rec0 = firstn (Z.to_nat total) out2 in
+                 if list_eqb
+                      (skipn (sub (length rec0) (N.to_nat warc_trailer_len))
+                        rec0) warc_trailer
+                 then RecOk (rec0, rs2, (skipn (Z.to_nat total) out2))
+                 else RecErr WFormat
+            else if Z.geb total alloc_limit
+                 then RecErr WLength
+                 else (match read_exact rread fuel rs2 out2 total with
+                       | Inl p ->
+                         let (rec0, rs3) = p in
+                         if list_eqb
+                              (skipn
+                                (sub (length rec0)
+                                  (N.to_nat warc_trailer_len)) rec0)
+                              warc_trailer
+                         then RecOk (rec0, rs3, [])
+                         else RecErr WFormat
+                       | Inr e -> RecErr e)
+          | HdrErr e -> RecErr e)
+  | LineEnd _ -> RecEnd
+  | LineErr e -> RecErr e
 
-(** val digits_of : n -> n **)
+type all_res =
+| AllOk of z list list
+| AllErr of werr * z list list
 
-let digits_of number =
-  digits_loop (S (S (S (S (S (S (S (S (S (S (S (S (S (S (S (S (S (S (S (S (S
-    (S (S (S (S (S (S (S (S (S (S (S (S (S (S (S (S (S (S (S
-    O))))))))))))))))))))))))))))))))))))))))
-    (u32N (Z.sub (Z.of_N number) (Zpos XH))) N0
+(** val warc_read_all :
+    ('a1 -> n -> (z list * 'a1) option) -> nat -> nat -> 'a1 -> z list ->
+    all_res **)
 
-(** val dec_loop : nat -> n -> z list -> z list **)
+let rec warc_read_all rread n0 fuel rs overhang =
+  match n0 with
+  | O -> AllErr (WHang, [])
+  | S n' ->
+    (match warc_read rread fuel rs overhang with
+     | RecOk (rec0, rs', ov) ->
+       (match warc_read_all rread n' fuel rs' ov with
+        | AllOk l -> AllOk (rec0 :: l)
+        | AllErr (e, l) -> AllErr (e, (rec0 :: l)))
+     | RecEnd -> AllOk []
+     | RecErr e -> AllErr (e, []))
 
-let rec dec_loop fuel x acc =
-  match fuel with
-  | O -> acc
-  | S f ->
-    let acc' =
-      (Z.add (Zpos (XO (XO (XO (XO (XI XH))))))
-        (Z.of_N (N.modulo x (Npos (XO (XI (XO XH))))))) :: acc
-    in
-    if N.eqb (N.div x (Npos (XO (XI (XO XH))))) N0
-    then acc'
-    else dec_loop f (N.div x (Npos (XO (XI (XO XH))))) acc'
+(** val no_codec_new : unit -> kind -> unit * unit **)
 
-(** val decimal : n -> z list **)
+let no_codec_new _ _ =
+  ((), ())
 
-let decimal x =
-  dec_loop (S (S (S (S (S (S (S (S (S (S (S (S (S (S (S (S (S (S (S (S (S (S
-    (S (S (S (S (S (S (S (S (S (S (S (S (S (S (S (S (S (S
-    O)))))))))))))))))))))))))))))))))))))))) x []
+(** val no_codec_call : kind -> unit -> z -> z list -> n -> unit cres **)
 
-(** val pad : n -> n -> z list **)
+let no_codec_call _ _ _ _ _ =
+  { c_st = (); c_used = N0; c_out = []; c_rc = (Zneg (XO (XO (XI (XO (XO (XI
+    XH))))))) }
 
-let pad width i =
-  let d = decimal i in
-  app
-    (repeat (Zpos (XO (XO (XO (XO (XI XH))))))
-      (sub (N.to_nat width) (length d))) d
+(** val rc_read :
+    (unit, unit) rstate -> n -> (z list * (unit, unit) rstate) option **)
 
-(** val names : z list -> n -> z list list **)
+let rc_read s n0 =
+  match rd no_codec_new no_codec_call (S O) s n0 with
+  | ROk (out, s') -> Some (out, s')
+  | RErr _ -> None
 
-let names prefix number =
-  map (fun i -> app prefix (pad (digits_of number) (N.of_nat i)))
-    (seq O (N.to_nat number))
+(** val warc_file : nat -> nat -> frags -> all_res **)
+
+let warc_file n0 fuel f =
+  match rc_open no_codec_new f () with
+  | Some s -> warc_read_all rc_read n0 fuel s []
+  | None -> AllErr (WReader, [])
